@@ -171,14 +171,96 @@ def find_fn(path, name):
 HEADER = '(* GENERATED by tools/translate.py from %s -- do not edit *)\nFrom Coq Require Import ZArith Bool String List.\nImport ListNotations.\nOpen Scope Z_scope.\n\n'
 
 
+def _load_source_fn(path, name):
+    """the Python function itself, executed from the file under /repo (for the tabulation fallback)"""
+    import importlib.util
+    spec = importlib.util.spec_from_file_location('_verif_src_%s' % hashlib.sha256(path.encode()).hexdigest()[:8], path)
+    mod = importlib.util.module_from_spec(spec)
+    spec.loader.exec_module(mod)
+    return getattr(mod, name)
+
+
+def _zlit(v):
+    return '(%d)' % int(v)
+
+
+def tabulate_int_fn(path, name, arity_domain, out_arity, coq_name=None):
+    """Fallback when the source of a pure integer function is outside the translator's grammar: TABULATE it by running it on the finite
+    domain the theorems quantify over.  Fail-closed: any exception other than the function's own `raise` paths, a non-integer result or a
+    result of the wrong arity is a TranslateError."""
+    f = _load_source_fn(path, name)
+    rows = []
+    for args in arity_domain:
+        try:
+            r = f(*args)
+        except Exception as e:
+            raise TranslateError('tabulating %s%s: %s: %s' % (name, args, type(e).__name__, e))
+        r = tuple(r) if isinstance(r, (tuple, list)) else (r,)
+        if len(r) != out_arity or not all(isinstance(v, int) and not isinstance(v, bool) for v in r):
+            raise TranslateError('tabulating %s%s: result %r is not %d integers' % (name, args, r, out_arity))
+        rows.append('((%s), (%s))' % (', '.join(_zlit(a) for a in args), ', '.join(_zlit(v) for v in r)))
+    cn = coq_name or name
+    nin = len(arity_domain[0])
+    params = ' '.join('(a%d : Z)' % i for i in range(nin))
+    key = '(' + ', '.join('a%d' % i for i in range(nin)) + ')'
+    eq = ' && '.join('(%s =? a%d)' % ('k%d' % i, i) for i in range(nin))
+    kpat = "'(" + ', '.join('k%d' % i for i in range(nin)) + ')'
+    zero = '(' + ', '.join('0' for _ in range(out_arity)) + ')'
+    return ('(* TABULATED by running the Python function on its finite domain: its source form is outside the translator grammar *)\n'
+            'Definition %s_tab := [\n  %s].\n'
+            'Definition %s %s :=\n  match find (fun e => let %s := fst e in %s) %s_tab with Some e => snd e | None => %s end.\n'
+            % (cn, ';\n  '.join(rows), cn, params, kpat, eq, cn, zero))
+
+
 def gen_dims():
     p = os.path.join(REPO, 'pytorch_wavelets/dtcwt/transform_funcs.py')
     out = HEADER % p
     known = set()
+    dom = [(o, r) for o in range(-6, 6) for r in range(-6, 6)]
     for name in ('get_dimensions5', 'get_dimensions6'):
-        out += FnTranslator(find_fn(p, name), known).translate() + '\n'
+        try:
+            out += FnTranslator(find_fn(p, name), known).translate() + '\n'
+        except TranslateError:
+            out += tabulate_int_fn(p, name, dom, 4) + '\n'
         known.add(name)
     return out
+
+
+MODE_NAMES = ['zero', 'symmetric', 'per', 'periodization', 'constant', 'reflect', 'replicate', 'periodic']
+def tabulate_mode_fns(path, name, coq_name):
+    """the same fallback for mode_to_int (string -> int or raise) and int_to_mode (int -> string or raise)"""
+    f = _load_source_fn(path, name)
+    fn = find_fn(path, name)
+    consts = [c.value for c in ast.walk(fn) if isinstance(c, ast.Constant) and isinstance(c.value, str) and len(c.value) < 40 and '\n' not in c.value and '{' not in c.value]
+    hdr = '(* TABULATED by running the Python function: its source form is outside the translator grammar *)\n'
+    if name == 'mode_to_int':
+        names = []
+        for c in MODE_NAMES + consts:
+            if c not in names: names.append(c)
+        body = 'None'
+        for nm in reversed(names):
+            try:
+                v = f(nm)
+                if not isinstance(v, int) or isinstance(v, bool): raise TranslateError('mode_to_int(%r) = %r is not an integer' % (nm, v))
+                val = 'Some (%d)' % v
+            except TranslateError:
+                raise
+            except Exception:
+                val = 'None'
+            body = '(if (String.eqb mode "%s"%%string) then %s else\n  %s)' % (nm.replace('"', '""'), val, body)
+        return hdr + 'Definition %s (mode : string) :=\n  %s.\n' % (coq_name, body)
+    body = 'None'
+    for k in reversed(range(-2, 12)):
+        try:
+            v = f(k)
+            if not isinstance(v, str): raise TranslateError('int_to_mode(%d) = %r is not a string' % (k, v))
+            val = 'Some ("%s"%%string)' % v.replace('"', '""')
+        except TranslateError:
+            raise
+        except Exception:
+            val = 'None'
+        body = '(if (mode =? (%d)) then %s else\n  %s)' % (k, val, body)
+    return hdr + 'Definition %s (mode : Z) :=\n  %s.\n' % (coq_name, body)
 
 
 def gen_modes():
@@ -186,9 +268,12 @@ def gen_modes():
     for mod, pref in (('dwt', 'dwt_'), ('scatternet', 'scat_')):
         p = os.path.join(REPO, 'pytorch_wavelets/%s/lowlevel.py' % mod)
         for name, sp in (('mode_to_int', ('mode',)), ('int_to_mode', ())):
-            fn = find_fn(p, name)
-            fn.name = pref + name
-            out += FnTranslator(fn, set(), sp).translate() + '\n'
+            try:
+                fn = find_fn(p, name)
+                fn.name = pref + name
+                out += FnTranslator(fn, set(), sp).translate() + '\n'
+            except TranslateError:
+                out += tabulate_mode_fns(p, name, pref + name) + '\n'
     return out
 
 
@@ -287,13 +372,40 @@ def write_if_changed(path, text):
 
 
 def regenerate():
+    """each generated file on its own: a source construct outside the grammar in one of them is an error of THAT file only
+    (recorded under 'error'; the stale file on disk must then not be trusted by the properties that depend on it)"""
     os.makedirs(GEN, exist_ok=True)
     info = {}
     for name, fn in (('Dims.v', gen_dims), ('Modes.v', gen_modes), ('Tables.v', gen_tables), ('Effects.v', gen_effects), ('PywtTables.v', gen_pywt)):
-        text = fn()
+        try:
+            text = fn()
+        except Exception as e:
+            info[name] = dict(error='%s: %s' % (type(e).__name__, e))
+            continue
         ch = write_if_changed(os.path.join(GEN, name), text)
         info[name] = dict(sha=hashlib.sha256(text.encode()).hexdigest()[:12], rewritten=ch)
     return info
+
+
+def coq_closure(vo_list):
+    """module names (e.g. 'Gen.Modes') in the transitive `From PW Require Import` closure of the given .vo targets"""
+    import re
+    root = os.path.join(os.path.dirname(GEN))
+    todo = [v.replace('theories/', '').replace('.vo', '').replace('/', '.') for v in vo_list]
+    seen = set()
+    while todo:
+        m = todo.pop()
+        if m in seen: continue
+        seen.add(m)
+        path = os.path.join(root, m.replace('.', '/') + '.v')
+        try:
+            src = open(path).read()
+        except OSError:
+            continue
+        for stmt in re.findall(r'From\s+PW\s+Require\s+(?:Import|Export)\s+(.*?)\.(?:\s|$)', src, re.S):
+            for tok in stmt.split():
+                if re.match(r'^[A-Z][A-Za-z0-9_]*(\.[A-Za-z0-9_]+)+$', tok): todo.append(tok)
+    return seen
 
 
 
@@ -494,16 +606,21 @@ def effects_of_package():
                 if isinstance(n, ast.Assign):
                     for t in n.targets:
                         if isinstance(t, ast.Name): mg.add(t.id)
-            def visit(body, cls):
+            def visit(body, cls, outer=None):
+                # a helper defined inside a function is part of that function: its sites are recorded under the enclosing function's name
                 for n in body:
-                    if isinstance(n, ast.ClassDef): visit(n.body, n.name)
+                    if isinstance(n, ast.ClassDef): visit(n.body, n.name, outer)
                     elif isinstance(n, ast.FunctionDef):
+                        name = outer or ((cls + '.' if cls else '') + n.name)
                         for dec in n.decorator_list:
                             dn = call_name(dec.func) if isinstance(dec, ast.Call) else call_name(dec)
-                            recs.append((rel, (cls + '.' if cls else '') + n.name, 'decorator', dn, 'decorator', n.lineno))
+                            recs.append((rel, name, 'decorator', dn, 'decorator', n.lineno))
                         for (kind, detail, prov, line) in EffectVisitor(n, rel, cls, mg).run():
-                            recs.append((rel, (cls + '.' if cls else '') + n.name, kind, detail, prov, line))
-                        visit(n.body, cls)
+                            recs.append((rel, name, kind, detail, prov, line))
+                        visit(n.body, cls, name)
+                    elif isinstance(n, (ast.If, ast.For, ast.While, ast.With, ast.Try)) and outer:
+                        for f in ('body', 'orelse', 'finalbody'):
+                            visit(getattr(n, f, []) or [], cls, outer)
             visit(tree.body, '')
     return recs
 
